@@ -22,6 +22,10 @@ CHECKS = {
    text="Decimal.tla transcribes the General Decimal Arithmetic rules (exact result, round-half-even to 34 digits, range check) over Bignum.tla as exact acceptors; TLC enumerates boundary operand classes (coefficient patterns x exponents at the subnormal/overflow edges, +-34/35 orders apart, ties, cancellation) which the harness crosses for every operator and numeric built-in, plus seeded random operands over the full range; every result is read through the raw decimal128 encoding (hook H2) and judged by TLC. Exploration level: the operand space is sampled by classes, not exhausted.",
    note="exp/log/non-integer powers are checked for range, sign and finiteness only (no accuracy enclosure yet). Trusts TLC, Bignum/Decimal.tla (self-tested against CPython's decimal on 1060 cases incl. 1-ulp neighbours), decQuadFromString/decQuadToBCD for operand construction and observation.",
    technique="TLA+ executable specification of decimal128 rounding (Bignum acceptors) judging traces of the real evaluator; operand classes enumerated by TLC"),
+ "C07": dict(cat="exploration", design="DESIGN.md §5 C07",
+   text="Every exponent -6176..6111 occurs (combined with coefficient patterns of lengths 1, 2, 17, 33, 34, both signs, trailing zeros, and arithmetic results x/3, x*7; near 0 and at both range edges every combination), plus seeded random numbers. For each number the harness records to_string, jsonify, from_str(to_string), the FEEL literal and xsd:decimal input of the harness-written plain text; Trace_C07 (TLC) rebuilds the only plain-decimal text the value and the (untrusted) structure hints can denote, compares it with the printed text, checks the JSON number rules, the magnitude, the sign and the round trip.",
+   note="Exponents are exhaustive, coefficients are sampled by pattern (exploration). Trusts TLC, hook H2 for the exact value, the harness's own plain-decimal writer for literals.",
+   technique="TLA+ denotation check (text must be the unique plain-decimal rendering of the observed value) by TLC over traces of the real formatter/parser"),
 }
 NOT_YET = {}
 props = [json.loads(l) for l in open('/verif/properties.jsonl')]
